@@ -93,7 +93,7 @@ claim("C09", "DESIGN.md section 4 C07-C10 + section 11",
 claim("C10", "DESIGN.md section 4 C07-C10 + section 11",
       "proof: untyped_passthrough / untyped_stream_ops / where_bool_shapes for every class table and callback table over the model of the follower: on an untyped stream every expression of the "
       "stated grammar is emitted structurally unchanged with no events, or refused with a designed ValueError located in the expression; never a crash; Where keeps comparison/boolean bodies. "
-      "The grammar excludes calls of subscripted attributes of typed/literal receivers (residual finding, proved to crash outside the grammar) and builtin-class methods on constants.",
+      "The grammar excludes calls of subscripted attributes of typed/literal receivers (residual finding, proved to crash outside the grammar) and builtin-class methods on constants. Immediately called lambdas are in the grammar (their body is followed with the parameters bound to the argument types; proved by induction on expression size over pairs of environments); inside such a body a lambda parameter is not taken for an untyped receiver of `v.a[s](...)`.",
       "literal_eval, isidentifier and keyword are hand-modelled (ASCII); ft_default and the table flags are regenerated from source. Residual known finding listed in KNOWN_FINDINGS.txt.")
 claim("C15", "DESIGN.md section 4 C15 + section 11",
       "proof: exactness on trees - extract_exact / extract_only_unwraps / extract_all_found (the list is the pre-order list of the wrappers' dictionaries: an outer wrapper precedes those inside "
